@@ -215,7 +215,9 @@ func (r *API) Write(ctx context.Context, msgType WriteMessageType, msg any) (_ W
 		}
 	case proto.Message:
 		// Generic proto.
-		*buf, err = (proto.MarshalOptions{}).MarshalAppend(*buf, m)
+		// The pooled buffer may still hold the bytes of a previous
+		// message, so append to its zero-length prefix.
+		*buf, err = (proto.MarshalOptions{}).MarshalAppend((*buf)[:0], m)
 		if err != nil {
 			return WriteResponseStats{}, fmt.Errorf("encoding request %w", err)
 		}
